@@ -34,24 +34,17 @@ Definition has_code (r : res bool) : N :=
 Definition get_code (r : res (option bytes)) : N :=
   match r with Ok None => 0 | Ok (Some _) => 1 | Err => 3 | Panic => 4 end.
 
-(* records longer than this are not run through the iteration model (cost of the term, not of the model) *)
-Definition iter_eval_limit : N := 65536.
-
 Definition table_obs (file : bytes) (cnt : N) (addrs : list bytes) : obs :=
   match open_table file cnt with
   | Err => {| o_open := 1; o_res := []; o_iter := 4; o_itern := 0; o_gm := 4; o_class := 0; o_recs := []; o_off := 0; o_man := None |}
   | Panic => {| o_open := 2; o_res := []; o_iter := 4; o_itern := 0; o_gm := 4; o_class := 0; o_recs := []; o_off := 0; o_man := None |}
   | Ok t =>
-    let big := match collect t (N.to_nat (ti_count t)) 0 with
-               | Ok recs => existsb (fun e => (iter_eval_limit <? snd (fst e)) && (snd (fst e) <=? iter_buf_size)) recs
-               | _ => false end in
-    let it := if big then (4, 0) else
-              match iterate crc32c file t with
+    let it := match iterate crc32c file t with
               | Ok l => (0, N.of_nat (length l)) | Err => (2, 0) | Panic => (3, 0) end in
     {| o_open := 0;
        o_res := map (fun h => (has_code (has t h), get_code (get crc32c file t h))) addrs;
        o_iter := fst it; o_itern := snd it;
-       o_gm := match get_many t addrs with GMCrash => 3 | GMNoCrash => 0 | GMEither => 4 end;
+       o_gm := match get_many t addrs with GMCrash => 3 | GMNoCrash => 0 end;
        o_class := 0; o_recs := []; o_off := 0; o_man := None |}
   end.
 
